@@ -70,9 +70,69 @@ def runFit (j : Json) : R Json := do
     ("prints", .arr ((prints r.1).toArray.map msgOut)),
     ("stop", .bool r.2.stop), ("ver", nOut r.2.ver), ("sched", nOut r.2.sched)]
 
+def reqIn (j : Json) : R Req := do
+  let reqCb ← (← jArr (← fld j "req_cb")).mapM (fun p => do
+    let a ← jArr p
+    return ((← jNat (a[0]?.getD .null)), (← evIn (a[1]?.getD .null))))
+  let reqMid ← (← jArr (← fld j "req_mid")).mapM (fun p => do
+    let a ← jArr p
+    return ((← jInt (a[0]?.getD .null)), (← jNat (a[1]?.getD .null))))
+  return { cb := fun i ev => reqCb.any (fun p => p.1 == i && p.2 == ev),
+           mid := fun e b => reqMid.any (fun p => p.1 == e && p.2 == b) }
+
+def cbArgIn (j : Json) : R CbArg := do
+  let form ← jStr (← fld j "form")
+  let items := (← jNatArr (← fld j "items")).toList
+  match form with
+  | "none" => if items.isEmpty then return .none else .error "callbacks form none with items"
+  | "list" => return .list items
+  | "tuple" => return .tuple items
+  | "cblist" => return .cbList items
+  | "iter" => return .iter items
+  | _ => .error s!"bad callbacks form {form}"
+
+def runIn (j : Json) : R Run := do
+  let pre ← (match fldOpt j "pre" with | none => pure none | some v => do return some (← jBool v) : R (Option Bool))
+  let negB ← (match fldOpt j "negB" with | none => pure none | some v => do return some (← jNat v) : R (Option Nat))
+  let args : Args := {
+    start := ← jInt (← fld j "start"), epochs := ← jInt (← fld j "epochs"), N := ← jNat (← fld j "N"),
+    posB := ← jNat (← fld j "posB"), negB := negB, hasBases := ← jBool (← fld j "hasBases"),
+    callbacks := ← cbArgIn (← fld j "callbacks"), time := ← jBool (← fld j "timer"),
+    hasSched := ← jBool (← fld j "hasSched") }
+  return { pre := pre, args := args, req := ← reqIn j }
+
+def outOf (r : List Entry × S) : Json :=
+  Json.mkObj [
+    ("log", .arr (r.1.toArray.map entryOut)),
+    ("events", .arr ((events r.1).toArray.map evOut)),
+    ("calls", .arr ((calls r.1).toArray.map (fun p => .arr #[nOut p.1, evOut p.2]))),
+    ("prints", .arr ((prints r.1).toArray.map msgOut)),
+    ("stop", .bool r.2.stop), ("ver", nOut r.2.ver), ("sched", nOut r.2.sched)]
+
+/-- op `c12.session`: consecutive `fit` calls on one object, from the caller's arguments (`QV.Train.session`).
+in : stop0, runs : [{pre : null|bool, start, epochs, N, posB, negB : null|nat, hasBases, callbacks : {form, items},
+     timer, hasSched, req_cb, req_mid}, …]
+out: {runs : [{log, events, calls, prints, stop, ver, sched, batchesPerEpoch, cbs}, …]} or {error} -/
+def runSession (j : Json) : R Json := do
+  let stop0 ← jBool (← fld j "stop0")
+  let runs ← (← jArr (← fld j "runs")).mapM runIn
+  match session runs.toList stop0 with
+  | .error e => return errOut e
+  | .ok outs =>
+    let extra (r : Run) : List (String × Json) :=
+      [("batchesPerEpoch", match batchesPerEpoch r.args.N r.args.posB r.args.negB r.args.hasBases with
+          | .ok nb => nOut nb | .error e => errOut e),
+       ("cbs", .arr ((wrapCallbacks r.args.callbacks).toArray.map nOut))]
+    let js := (runs.toList.zip outs).map (fun (r, o) =>
+      match outOf o with
+      | .obj _ => (outOf o).mergeObj (Json.mkObj (extra r))
+      | x => x)
+    return Json.mkObj [("runs", .arr js.toArray)]
+
 def handle (op : String) (j : Json) : Option (R Json) :=
   match op with
   | "c12.fit" => some (runFit j)
+  | "c12.session" => some (runSession j)
   | _ => none
 
 end Drv.C12
